@@ -333,6 +333,12 @@ def rule_expo(ctx):
     # reader: base ** (counter - num_reserved)
     pw2 = [t for t in _pow_terms(w2) if t[2] == Lin.term(("param", "base")).key()]
     ctx.analysed_funcs.update([lc.key, c2v.key])
+    if not pw1:
+        drawn = [e for e in w1.events if e.kind == "branch" and any(t[0] == "call" and str(t[1]).startswith("_rand") for t in _cond_terms(e.cond))]
+        if not drawn:
+            ctx.ob("expo", lc, lc.node, "increment test of %s" % lc.name, "beyond the reserved range a step is taken when a fresh draw is below the increment probability",
+                   False, "no decision of the counter kernel depends on a random draw: the counter never advances (or always advances) beyond the reserved range")
+            return
     if len(pw1) != 1 or len(pw2) != 1:
         ctx.ob("expo", lc, lc.node, "base ** exponent", "one power of base in the increment test and one in the decoder", None,
                "found %d / %d" % (len(pw1), len(pw2)))
@@ -514,6 +520,17 @@ def rule_logmerge_shape(ctx, rounding=True):
                         found = True
         ctx.ob("logmerge-shape", k, a.node, "cprime = log((v - num_reserved)*(base - 1) + 1) / log(base)",
                "re-encoding inverts the decoder's geometric sum", found, "" if found else "no assignment with that normal form")
+        # clower = uintN(cprime) + num_reserved: the re-encoded counter is offset by the reserved range, like the decoder's
+        rest = a.value.lin - NR
+        tt = rest.single_term()
+        okk = tt is not None and tt[0] == "trunc" and rest == Lin.term(tt)
+        why = "" if okk else "the lower candidate is `%s`, not uintN(cprime) + num_reserved" % show_lin(a.value.lin)
+        if okk:
+            cst = [c for c in on_path(w.events, a) if c.kind == "cast" and c.fromfloat and isinstance(c.result, Num) and c.result.lin == rest]
+            argt = cst[-1].arg.lin.single_term() if cst and isinstance(cst[-1].arg, Num) else None
+            okk = argt is not None and argt[0] == "op" and argt[1] == "Div"
+            why = "" if okk else "the truncated value is not the quotient log(.)/log(base)"
+        ctx.ob("logmerge-shape", k, a.node, "clower = uintN(cprime) + num_reserved", "the re-encoded counter is the truncated cprime offset by the reserved range (inverse of the decoder)", okk, why)
         # the choice: fractional position <= 1/2 -> lower, else upper
         pre = [x for x in on_path(w.events, a) if x.loops == a.loops]
         dec = [c for c in pre if c.kind == "call" and c.name == "_counter2value"]
@@ -834,6 +851,14 @@ def _bytes_once(ctx, f, name, B, keyp):
                "" if okk else "expected %s%s" % (exp, ("; %d unclassified tail accesses" % (len(occ) - len(uses))) if len(occ) != len(uses) else ""))
 
 
+def _mentions_blocks(t):
+    if isinstance(t, tuple):
+        if t and t[0] in ("fold", "elem"):
+            return True
+        return any(_mentions_blocks(x) for x in t)
+    return False
+
+
 def _tail_index(node, tailnames):
     while isinstance(node, ast.Call) and len(node.args) == 1 and cast_target(node.func) is not None:
         node = node.args[0]
@@ -855,11 +880,22 @@ def rule_dfg(ctx):
         # exhaustive case split on (len % B, len // B > 0): inside a case the tests on the residue and on the block count are decided
         # and residue-bounded loops unroll, so a tail written as a switch, as nested ifs or as a loop yields the same term
         seen = {}
-        for r in range(B):
-            for has_blocks in (False, True):
-                label = "%s: len %% %d == %d, %s" % (name, B, r, "with whole blocks" if has_blocks else "no whole block")
+        cases = [(r, hb) for r in range(B) for hb in (False, True)]
+        ci = 0
+        while ci < len(cases):
+            case = cases[ci]
+            ci += 1
+            if True:
+                r, has_blocks = case[0], case[1]
+                sub = case[2] if len(case) > 2 else None
+                label = "%s: len %% %d == %d, %s" % (name, B, r, ("with whole blocks" if sub is None else "exactly one whole block" if sub == "one"
+                                                                  else "two or more whole blocks") if has_blocks else "no whole block")
                 try:
-                    paths = HB.HInterp(ctx.model, f, B, case=(r, has_blocks)).run_public()
+                    paths = HB.HInterp(ctx.model, f, B, case=case).run_public()
+                except HB.HNeedSplit:
+                    # a test on the block count that `at least one block` does not decide: split the case further
+                    cases[ci:ci] = [(r, True, "one"), (r, True, "many")]
+                    continue
                 except HB.HUndecided as u:
                     ctx.ob("dfg", f, f.node, label, "every path's result term is computable", None, str(u))
                     continue
@@ -880,6 +916,14 @@ def rule_dfg(ctx):
                         ctx.ob("dfg", f, f.node, label, "normal form computable", None, str(e))
                         continue
                     d = HB.diff(got, want)
+                    if d is not None and sub is not None:
+                        # inside a sub-case the reference still folds over the blocks symbolically; a different term is a violation
+                        # only when the whole blocks' bytes do not reach the result at all (no published hash ignores them)
+                        if _mentions_blocks(got):
+                            ctx.ob("dfg", f, f.node, label, "the result term is comparable with the published algorithm's in this sub-case", None,
+                                   "the function treats keys with %s specially: %s" % ("exactly one whole block" if sub == "one" else "two or more whole blocks", d))
+                            continue
+                        d = "the bytes of the whole blocks do not reach the result for keys with %s; %s" % ("exactly one whole block" if sub == "one" else "two or more whole blocks", d)
                     seen[(r, has_blocks)] = seen.get((r, has_blocks), True) and d is None
                     ztxt = (", when %s == 0" % " and ".join(HB.show(z)[:40] for z in zeros)) if zeros else ""
                     ctx.ob("dfg", f, f.node, label + ztxt,
